@@ -103,6 +103,9 @@ func (fd *Client) SetInterpreter(i interpreter.Interpreter) {
 
 // GetNativeInterpreter returns native interpreter
 func (fd *Client) GetNativeInterpreter() *interpreter.Native {
+	fd.mu.Lock()
+	defer fd.mu.Unlock()
+
 	return fd.nativeInterpreter
 }
 
